@@ -216,7 +216,11 @@ func Render(p *Prog, o RenderOpts) map[string]string {
 			}
 			var lines []string
 			lines = append(lines, head...)
-			lines = append(lines, "package "+f.EffPkgName())
+			if f.PkgTrail != nil {
+				lines = append(lines, "package "+f.EffPkgName()+" // @ignore "+f.PkgTrail.Codes)
+			} else {
+				lines = append(lines, "package "+f.EffPkgName())
+			}
 			var imps []string
 			for path := range imports {
 				imps = append(imps, path)
